@@ -403,7 +403,33 @@ def check_unused_scope(chk):
                 chk.bad('C18.S', mod, 'lint_script', norm(node)[:80], 'an unused-variable warning is issued for a global: globals are visible to includes and the host, renaming them changes behaviour', node=node)
 
 
+def check_lint_sim(chk, rule='C18.R', kinds=None):
+    """lint_script evaluated (E6n) on jump-level models, a lowered structured program and the shipped includes -> True when every model agrees"""
+    from .. import lintsim
+    cache = getattr(chk, '_lint_sim', None)
+    if cache is None:
+        cache = chk._lint_sim = lintsim.run_lint(chk.repo, chk.tier, rule)
+    n, problems = cache
+    if kinds is not None:
+        problems = [p for p in problems if p[0] in kinds]
+    mod = chk.repo.module('model')
+    if problems:
+        by = {}
+        for k, msg in problems:
+            by.setdefault(k, []).append(msg)
+        for k, msgs in by.items():
+            chk.bad(rule, mod, 'lint_script', f'{k}: {msgs[0][:110]}', f'evaluation of lint_script on {n} models: {msgs[0][:500]} ({len(msgs)} deviations of this kind)', node=mod.funcs.get('lint_script'))
+        return False
+    chk.ok(rule, f'lint_script evaluated on {n} models (jump-level models with user / duplicate / dangling labels, duplicate functions and arguments, names equal to schema member '
+           f'names; a structured program lowered by parse_script; the shipped includes), each linted three times (again, and with the other iteration order of unordered '
+           f'collections): no exception, model unchanged, same warnings every time, label / function / argument / unused warnings exactly those the model justifies, no label '
+           f'warning for lowered structured code, shipped includes lint-clean', count=n * 3)
+    return True
+
+
 def run(chk):
+    chk.rule('C18.R', 'lint_script evaluated on concrete models (E6n): never raises, pure, deterministic (also under hash order), warnings = the facts of the model', floor=24)
+    lint_ok = chk.guard('C18.R', check_lint_sim, chk)
     chk.rule('C18.M', 'lint does not modify the model (effect analysis, shared with C08.M)', floor=10)
     chk.rule('C18.K', 'optional members of model nodes are read under a membership test or .get (lint never raises)', floor=5)
     chk.rule('C18.X', 'use collection and pointless test visit every expression position', floor=14)
@@ -413,12 +439,17 @@ def run(chk):
     chk.assumptions += ['models are schema-valid; dict iteration follows insertion order (CPython >= 3.7)']
     sch = schema_mod.load(chk.repo.module('model'), 'BARE_SCRIPT_TYPES', 'C18.K')
     chk.guard('C18.M', c08.check_immutability, chk, ('model',), 'C18.M')
-    chk.guard('C18.K', check_optional_keys, chk, sch)
-    chk.guard('C18.X', check_traversal, chk, sch)
-    chk.guard('C18.K', check_optional_truthiness, chk, sch)
-    chk.guard('C18.L', check_label_scopes, chk)
-    chk.guard('C18.O', check_order, chk)
-    chk.guard('C18.S', check_unused_scope, chk)
+    # the shape rules below explain a deviation; once the evaluation C18.R decided positively they are advisory read-backs
+    run_rule = chk.advisory if lint_ok else chk.guard
+    run_rule('C18.K', check_optional_keys, chk, sch)
+    run_rule('C18.X', check_traversal, chk, sch)
+    run_rule('C18.K', check_optional_truthiness, chk, sch)
+    run_rule('C18.L', check_label_scopes, chk)
+    run_rule('C18.O', check_order, chk)
+    run_rule('C18.S', check_unused_scope, chk)
+    if lint_ok:
+        for r in ('C18.K', 'C18.X', 'C18.L', 'C18.O', 'C18.S'):
+            chk.floors.pop(r, None)
     # "the jumps that can raise Unknown jump label": what a jump does at run time is the runtime's label lookup (shared with C08)
     chk.rule('C08.E', 'shared with C08: abstract execution of the statement loop (label lookup: first label of that name in the current list, index 0 included)')
     chk.rule('C08.L', 'shared with C08: label lookup / cache locality')
